@@ -4,6 +4,7 @@
 
 #![allow(clippy::all)]
 
+mod c01b;
 mod c04;
 mod c06;
 mod c07;
@@ -71,7 +72,12 @@ fn parse_args() -> (String, Params) {
 fn main() {
     let (cmd, p) = parse_args();
     let t0 = std::time::Instant::now();
+    // engines in which nothing sleeps in real time (see util.rs); THR jobs wait on real timers up to 10 s per run
+    if matches!(cmd.as_str(), "c01b" | "c02" | "c03" | "c04" | "c05" | "c06" | "c07" | "c08" | "c10" | "c11" | "c13" | "c15" | "c16") && p.get("engine") != Some("thr") {
+        util::start_block_watchdog(cmd.to_uppercase(), p.out.clone(), p.shard, 25);
+    }
     let (st, rule): (Stats, &str) = match cmd.as_str() {
+        "c01b" => c01b::run(&p),
         "c06" => c06::run(&p),
         "c07" => c07::run(&p),
         "c08" => c08::run(&p),
